@@ -1492,6 +1492,43 @@ class Interp:
         self._const_cache[key] = out
         return out
 
+    def _mutated_table(self, m: Module, name: str) -> bool:
+        """NAME[...] = ..., del NAME[...], NAME.update / append / ... (...),
+        NAME += ... somewhere in the program (in the defining module by its
+        name, elsewhere as an attribute `module.NAME`)"""
+        cache = self.prog.__dict__.setdefault("_mutated_tables", {})
+        k = (m.name, name)
+        if k in cache:
+            return cache[k]
+        MUT = {"update", "append", "extend", "setdefault", "pop", "popitem",
+               "add", "insert", "clear", "remove", "discard", "sort",
+               "reverse", "__setitem__", "__delitem__"}
+
+        def is_it(n, mod) -> bool:
+            if isinstance(n, ast.Name):
+                return n.id == name and (
+                    mod is m or mod.imports.get(name) == f"{m.name}.{name}")
+            return isinstance(n, ast.Attribute) and n.attr == name and \
+                mod is not m
+        hit = False
+        for mod in self.prog.modules.values():
+            for n in ast.walk(mod.tree):
+                if isinstance(n, ast.Subscript) and isinstance(
+                        n.ctx, (ast.Store, ast.Del)) and is_it(n.value, mod):
+                    hit = True
+                elif isinstance(n, ast.Call) and isinstance(
+                        n.func, ast.Attribute) and n.func.attr in MUT and \
+                        is_it(n.func.value, mod):
+                    hit = True
+                elif isinstance(n, ast.AugAssign) and is_it(n.target, mod):
+                    hit = True
+                if hit:
+                    break
+            if hit:
+                break
+        cache[k] = hit
+        return hit
+
     def _is_literal(self, v: T) -> bool:
         if v.op in ("const", "enum"):
             return True
